@@ -12,6 +12,11 @@ Layers
      traj     placements drawn continuously (plus structured ones close to - but outside the margin of - cell
               boundaries), several molecule classes, molgri grids and synthetic grids, outliers on/off, both metrics;
               pseudotrajectories of the grid itself through the package's own Pseudotrajectory.
+     input representation: every trajectory case is also run in another representation the public API accepts
+              (trajectory backed by a DCD / LAMMPS-DCD / TRR / XTC / XYZ / multi-frame PDB / NCDF file or a chain of two
+              files instead of memory, the whole system rigidly displaced so that the first molecule is off the origin,
+              full_array Fortran-ordered / read-only / strided, second molecule as AtomGroup, numpy scalars for
+              stop / include_outliers), judged by the same placements with margins widened by the format's precision.
 
 The model (Lean, exact rationals) gets the same numbers the implementation saw; MDAnalysis principal_axes, the
 square root in np.linalg.norm and the grid arrays parsed by from_full_array_to_o_b_t are inputs of the model
@@ -22,6 +27,7 @@ grid quaternion with largest |q.p| to the rotation that was applied), from the c
 from __future__ import annotations
 
 import itertools
+import os
 import math
 import types
 from fractions import Fraction
@@ -52,12 +58,14 @@ MARGIN_B = 1e-3                     # difference of |q.p|
 F32 = 6e-8                          # relative resolution of the float32 coordinates MDAnalysis stores
 
 
-def margins(d):
+def margins(d, p=0.0):
     """margins at centre-of-mass distance d (A): the base margins, widened where the float32 coordinates of the
     trajectory cannot resolve the placement any better (tiny distances: direction; huge distances: radius, rotation).
     Returns (radial A, direction as difference of dot products, rotation as difference of |q.p|)."""
     d = max(float(d), 1e-300)
-    return (max(MARGIN_T, 8 * F32 * d), max(MARGIN_O, 1e-6 / d), max(MARGIN_B, 16 * F32 * d))
+    # p = coordinate quantum (A) of the file format backing the trajectory (0 for float32 formats): centre of mass off by
+    # <= p/2, principal axes of a ~1 A molecule with >= 8 % moment gaps off by <= ~6 p rad (|q.p| by half of that)
+    return (max(MARGIN_T, 8 * F32 * d, 4 * p), max(MARGIN_O, 1e-6 / d, 4 * p / d), max(MARGIN_B, 16 * F32 * d, 10 * p))
 
 
 O_UNRESOLVABLE = 0.25               # direction margin beyond which the direction of a placement is not in the float32 data
@@ -384,7 +392,7 @@ NAMED = [("cube4D_8", "ico_6", "[0.2, 0.3, 0.45]"), ("cube4D_9", "ico_7", "[0.3,
          ("cube4D_7", "zero3D_1", "[0.2, 0.3]"), ("randomQ_11", "randomS_13", "range(0.2, 0.5, 0.1)")]
 
 
-def cases(ctx):
+def _base_cases(ctx):
     rng = ctx.rng
     quick = ctx.quick
     # ---- unit level -------------------------------------------------------------------------------------------
@@ -540,8 +548,89 @@ def cases(ctx):
                "outliers": False, "cartesian": k % 2 == 0}
 
 
+def cases(ctx):
+    """the base cases; after every trajectory case the same case in a seed-chosen other input representation (file-backed
+    trajectory of some format, displaced system, full_array form, AtomGroup, numpy scalars); in quick 30 % of the
+    cases get a variant cut to 6 frames, in thorough 50 % cut to 20 frames; the exhaustive sweep of two fixed cases over all accepted representations is run as well"""
+    import random
+    rrng = random.Random(f"C11-rep-{ctx.seed}")
+    swept = False
+    for case in _base_cases(ctx):
+        if case["kind"] == "traj" and not swept:
+            swept = True
+            yield from fixed_sweep_cases()
+        yield case
+        if case["kind"] == "traj":
+            v = rep_variant(case, rrng, max_frames=6 if ctx.quick else 20)
+            if v is not None and ((not ctx.quick and rrng.random() < 0.5)
+                                  or (ctx.quick and not case.get("pt") and rrng.random() < 0.3)):
+                yield v
+    ctx.extra_cov["input_representations"] = {
+        "trajectory_backings_accepted": {b: {"coordinate_quantum_A": spec["precision"],
+                                            "used_for_molecules_with_structural_zeros": spec["zero_ok"]}
+                                         for b, spec in BACKINGS.items()},
+        "full_array_forms_accepted": FULL_ARRAY_FORMS, "second_molecule": ["Universe", "AtomGroup"],
+        "stop_include_outliers": ["python", "numpy scalars"], "first_molecule": ["at the origin", "displaced by %s A" % DISPLACEMENT],
+        "not_accepted_or_not_available": REJECTED_REPRESENTATIONS}
+
+
 def _strip(m):
     return {"els": m["els"], "X": m["X"]}
+
+
+def _has_structural_zero(case):
+    sg = _ideal_signs(case["mol2"]["els"], case["mol2"]["X"]) or _ideal_signs(case["mol2"]["els"], case["mol2"]["X"], tol=1e-4)
+    return sg is None or any(0 in row for row in sg)
+
+
+def _allowed_backings(case):
+    zero = _has_structural_zero(case)
+    return [b for b, spec in BACKINGS.items() if spec["zero_ok"] or not zero]
+
+
+def rep_variant(case, rrng, max_frames=None):
+    """the same trajectory case in another input representation (seed-chosen)"""
+    if any(tag in case.get("cls", "") for tag in ("_huge_radii", "_tiny_first_shell")):
+        return None      # PDB columns / XTC integers do not hold 1e5 A; the extreme grids keep the in-memory representation
+    backs = [b for b in _allowed_backings(case) if b != "memory"]
+    rep = {"backing": rrng.choice(backs + ["DCD", "memory"]),
+           "disp": DISPLACEMENT if rrng.random() < 0.7 else None,
+           "full_array": rrng.choice(FULL_ARRAY_FORMS), "second": rrng.choice(["universe", "atomgroup"]),
+           "scalars": rrng.choice(["python", "numpy"])}
+    c = {**case, "rep": rep}
+    if max_frames and "placements" in c:
+        c["placements"] = c["placements"][:max_frames]
+    return c
+
+
+def fixed_sweep_cases():
+    """two small fixed cases (independent of VERIF_SEED) in every accepted representation: every backing with the first
+    molecule at the origin and rigidly displaced, every full_array form / AtomGroup / numpy scalars"""
+    import random
+    frng = random.Random("C11-representations-fixed")
+    base = []
+    mol = gen_molecule(frng, "generic")
+    g = {"type": "raw", **raw_grid(frng, 5, 6, 3, 6.0)}
+    _, og, bg, tg = grid_arrays(g)
+    base.append({"kind": "traj", "grid": g, "mol1": FIRST_MOL, "mol2": _strip(mol), "cls": "generic_repsweep",
+                 "placements": placements(frng, og, bg, tg, 6, far_ok=True), "outliers": False, "cartesian": True})
+    water = {"els": ["O", "H", "H"], "X": [[0.0, 0.0, 0.0], [0.8, 0.6, 0.0], [-0.8, 0.6, 0.0]]}
+    g = {"type": "name", "b": "cube4D_8", "o": "ico_12", "t": "[0.2, 0.3, 0.4]"}
+    _, og, bg, tg = grid_arrays(g)
+    base.append({"kind": "traj", "grid": g, "mol1": FIRST_MOL, "mol2": water, "cls": "c2v_planar_repsweep",
+                 "placements": placements(frng, og, bg, tg, 6, far_ok=True), "outliers": True, "cartesian": False})
+    for i, c in enumerate(base):
+        for b in _allowed_backings(c):
+            # first case: first molecule at the origin AND displaced; second case: displaced (every on-the-fly transformed
+            # frame read costs ~20 ms in MDAnalysis/threadpoolctl, so the sweep is kept small)
+            for disp in ((None, DISPLACEMENT) if i == 0 else (DISPLACEMENT,)):
+                if b == "memory" and disp is None:
+                    continue
+                yield {**c, "rep": {"backing": b, "disp": disp}}
+        for fa in FULL_ARRAY_FORMS[1:]:
+            yield {**c, "rep": {"backing": "memory", "disp": DISPLACEMENT, "full_array": fa}}
+        yield {**c, "rep": {"backing": "memory", "disp": DISPLACEMENT, "second": "atomgroup"}}
+        yield {**c, "rep": {"backing": "DCD", "disp": DISPLACEMENT, "scalars": "numpy", "second": "atomgroup", "full_array": "F"}}
 
 
 # ------------------------------------------------------------------------------------------------------------------
@@ -653,7 +742,95 @@ def build_frames(case, full):
     return frames
 
 
+# input representations of one and the same trajectory / grid / reference molecule (all accepted by the public API).
+# precision = coordinate quantum of the format in A (the oracle's margins are widened by it); zero_ok = fine enough for
+# molecules with structurally zero projections (the zero test of the sign fixing is 5e-4 A).
+BACKINGS = {
+    "memory": {"ext": None, "kw": {}, "precision": 0.0, "zero_ok": True},
+    "DCD": {"ext": "dcd", "kw": {}, "precision": 0.0, "zero_ok": True},                  # float32, like memory
+    "LAMMPS_DCD": {"ext": "lammps", "kw": {}, "precision": 0.0, "zero_ok": True},
+    "TRR": {"ext": "trr", "kw": {}, "precision": 2e-6, "zero_ok": True},                  # float32 in nm
+    "XTC_p6": {"ext": "xtc", "kw": {"precision": 6}, "precision": 1e-5, "zero_ok": True},
+    "XTC_default": {"ext": "xtc", "kw": {}, "precision": 1e-2, "zero_ok": False},         # 1e-3 nm
+    "XYZ": {"ext": "xyz", "kw": {}, "precision": 1e-5, "zero_ok": True},
+    "PDB_multiframe": {"ext": "pdb", "kw": {"multiframe": True}, "precision": 1e-3, "zero_ok": False},
+    "NCDF": {"ext": "ncdf", "kw": {}, "precision": 0.0, "zero_ok": True},
+    "CHAIN_TRR": {"ext": "trr", "kw": {}, "precision": 2e-6, "zero_ok": True, "chain": True},  # two files, ChainReader
+}
+FULL_ARRAY_FORMS = ["C", "F", "readonly", "strided"]
+DISPLACEMENT = [11.0, -7.5, 4.25]
+# representations the unchanged tree does not accept / does not satisfy the property with (established by
+# /tmp-free probing in probe_representations(); listed in the evidence, left out of the sweep)
+REJECTED_REPRESENTATIONS = {
+    "full_array float32": "rejected by the unchanged tree: from_full_array_to_o_b_t de-duplicates rows rounded to 8 decimals, float32 "
+                          "copies of one direction differ by ~6e-8, so o_array gets extra rows (e.g. 15 instead of 6) and every "
+                          "index is off - explained by the precision of the representation, not judged",
+    "full_array longdouble": "rejected by the unchanged tree: scipy Rotation raises ValueError (Buffer dtype mismatch, expected "
+                             "'const double' but got 'long double')",
+    "multi-frame GRO": "not a representation here: MDAnalysis' GROWriter/GROReader handle a single frame",
+    "H5MD / TNG / LAMMPSDUMP / TRJ / MDCRD": "no writer available offline in this environment (h5py, pytng missing; read-only formats)",
+}
+
+
+def _full_array_form(full, form):
+    full = np.array(full, dtype=np.float64)
+    if form == "F":
+        return np.asfortranarray(full)
+    if form == "readonly":
+        a = full.copy()
+        a.setflags(write=False)
+        return a
+    if form == "strided":
+        big = np.zeros((full.shape[0] * 2, full.shape[1] * 2))
+        big[::2, ::2] = full
+        return big[::2, ::2]
+    if form == "float32":
+        return full.astype(np.float32)
+    if form == "longdouble":
+        return full.astype(np.longdouble)
+    return full
+
+
+def _rebacked(u, els, backing, tmpdir):
+    """the same trajectory, backed by a file of the given format (same in-memory topology)"""
+    import MDAnalysis as mda
+    spec = BACKINGS[backing]
+    if spec["ext"] is None:
+        return u
+    n = len(u.trajectory)
+    parts = [(0, n)]
+    if spec.get("chain") and n >= 2:
+        parts = [(0, n // 2), (n // 2, n)]
+    paths = []
+    for i, (a, b) in enumerate(parts):
+        path = os.path.join(tmpdir, f"traj_{i}.{spec['ext']}")
+        with mda.Writer(path, n_atoms=len(els), **spec["kw"]) as W:
+            for ts in u.trajectory[a:b]:
+                W.write(u.atoms)
+        paths.append(path)
+    u2 = universe(els, [u.trajectory[0].positions.copy()])
+    u2.load_new(paths if len(paths) > 1 else paths[0])
+    if len(u2.trajectory) != n:
+        raise core.HarnessError(f"{backing}: wrote {n} frames, re-read {len(u2.trajectory)}")
+    return u2
+
+
 def impl_traj(case):
+    import shutil
+    import tempfile
+    import warnings
+    rep = case.get("rep") or {}
+    tmpdir = tempfile.mkdtemp(prefix="c11_") if rep.get("backing", "memory") != "memory" else None
+    try:
+        with warnings.catch_warnings():
+            warnings.simplefilter("ignore")      # MDAnalysis' DCDReader announces a future API change on every open
+            return _impl_traj(case, rep, tmpdir)
+    finally:
+        if tmpdir:
+            shutil.rmtree(tmpdir, ignore_errors=True)
+
+
+def _impl_traj(case, rep, tmpdir):
     from molgri.molecules.transitions import AssignmentTool
     full, og, bg, tg = grid_arrays(case["grid"])
     els1, els2 = case["mol1"]["els"], case["mol2"]["els"]
@@ -665,9 +842,22 @@ def impl_traj(case):
             m1 = universe(els1, [np.array(case["mol1"]["X"]) - com_of(els1, case["mol1"]["X"])])
             u = Pseudotrajectory(m1, ref, full).get_pt_as_universe()
             ref = universe(els2, [case["mol2"]["X"]])
+            frames0 = None
         else:
-            u = universe(list(els1) + list(els2), build_frames(case, full))
-        at = AssignmentTool(full, u, ref, include_outliers=case["outliers"], cartesian_grid=case["cartesian"])
+            frames0 = build_frames(case, full)
+            u = universe(list(els1) + list(els2), frames0)
+        if rep.get("disp"):
+            # the whole two-molecule system rigidly displaced (the first molecule is no longer at the origin)
+            fr = np.array([ts.positions.copy() for ts in u.trajectory], dtype=np.float64) + np.array(rep["disp"])
+            u = universe(list(els1) + list(els2), fr)
+        u = _rebacked(u, list(els1) + list(els2), rep.get("backing", "memory"), tmpdir)
+        full_in = _full_array_form(full, rep.get("full_array", "C"))
+        second = ref.atoms if rep.get("second") == "atomgroup" else ref
+        kw = {"include_outliers": case["outliers"], "cartesian_grid": case["cartesian"]}
+        if rep.get("scalars") == "numpy":
+            kw["include_outliers"] = np.bool_(case["outliers"])
+            kw["stop"] = np.int64(len(u.trajectory))
+        at = AssignmentTool(full_in, u, second, **kw)
     out = {"n": len(u.trajectory),
            "grid": {"t": [float(x) for x in at.t_array], "o": np.asarray(at.o_array, dtype=float).tolist(),
                     "b": np.asarray(at.b_array, dtype=float).tolist()},
@@ -1119,12 +1309,20 @@ def oracle_traj(ctx, case, out):
     if not out.get("full_exact_int", True):
         ctx.fail("C11:not_integer", "an assignment is neither NaN nor an integer", case)
         return
+    rep = case.get("rep") or {}
+    prec = BACKINGS[rep.get("backing", "memory")]["precision"]
+    if rep.get("disp"):
+        prec = max(prec, 2e-6)       # float32 coordinates of the displaced system: ulp 1e-6 at 8..16 A
+    ctx.branch("rep:backing_" + rep.get("backing", "memory") + ("_displaced" if rep.get("disp") else ""))
+    for k_, dflt in (("full_array", "C"), ("second", "universe"), ("scalars", "python")):
+        if rep.get(k_, dflt) != dflt:
+            ctx.branch("rep:%s_%s" % (k_, rep[k_]))
     if case.get("pt"):
         # a pseudotrajectory generated from a grid is assigned back to 0,1,2,... exactly
         exp = list(range(len(full)))
         # a shell whose radius is below the float32 resolution of the atom coordinates has no direction in the trajectory:
         # for its frames only shell and rotation are required (counted); every other frame must come back exactly
-        unres = [margins(tg[k // (nB * nO)])[1] > O_UNRESOLVABLE for k in exp]
+        unres = [margins(tg[k // (nB * nO)], prec)[1] > O_UNRESOLVABLE for k in exp]
         if any(unres):
             ctx.branch("excluded:pt_direction_unresolvable_in_float32", sum(unres))
 
@@ -1165,7 +1363,7 @@ def oracle_traj(ctx, case, out):
         else:
             ctx.branch("external:principal_axes_hypothesis_validated")
         # radial
-        mt, mo, mb = margins(d)
+        mt, mo, mb = margins(d, prec)
         excluded = False
         if min(abs(d - b) for b in B) < mt:
             ctx.branch("excluded:radial_boundary")
